@@ -834,7 +834,9 @@ def weave(txt, s, notes, canary=False):
                 raise ExtractError('@loopend %d: function %s has %d loops' % (k, s.args[1], len(loops)))
             inserts.append((match_close(mask, loops[k - 1][1]), '\n' + body + '\n'))
         elif name == 'attr':
-            attr_lines.append((arg + ' ' + body).strip())
+            # a raised resource limit is for the real proof only: the `ensures false` copy must simply fail, quickly
+            if not (canary and 'rlimit' in arg):
+                attr_lines.append((arg + ' ' + body).strip())
         elif name == 'top':
             inserts.append((body_open + 1, '\n' + body + '\n'))
         elif name in ('subst', 'droptail', 'lambda_lift'):
